@@ -54,6 +54,14 @@ HasDev(C, d) == d \in C.dev
 
 \* -------------------------------------------------------- program tables
 FuncIdx(C, name)   == FindName(C.p.funcs, name)
+ExternIdx(C, name) == FindName(C.p.externs, name)
+\* the external C functions the corpus declares (libc): their meaning is fixed by the C standard
+ExternApply(name, vs, st) ==
+   CASE name = "labs" /\ Len(vs) = 1 /\ vs[1].t = "int" -> RV(VInt(IF I64IsNeg(vs[1].i) THEN I64Neg(vs[1].i) ELSE vs[1].i), st)
+     [] name = "toupper" /\ Len(vs) = 1 /\ vs[1].t = "int" ->
+           RV(VInt(IF vs[1].i[1] = 0 /\ vs[1].i[2] = 0 /\ vs[1].i[3] = 0 /\ vs[1].i[4] >= 97 /\ vs[1].i[4] <= 122
+                   THEN <<0, 0, 0, vs[1].i[4] - 32>> ELSE vs[1].i), st)
+     [] OTHER -> RV(VVoid, Fault(st, "unspecified:extern"))
 StructIdx(C, name) == FindName(C.p.structs, name)
 \* "Union.Variant" -> field names of that variant (<<>> if unknown, flagged by UVKnown)
 RECURSIVE FindUV(_, _, _, _)
@@ -238,6 +246,9 @@ CallFn(C, name, args, st) ==
        target == IF l.ok /\ l.v.t = "fn" THEN l.v.s ELSE name
        fi == FuncIdx(C, target) IN
    IF l.ok /\ l.v.t # "fn" THEN RV(VVoid, Fault(st, "stuck:notfn"))
+   ELSE IF fi = 0 /\ ExternIdx(C, name) # 0 THEN
+        LET r == EvalList(C, args, 1, <<>>, st) IN
+        IF Bad(r.st) THEN RV(VVoid, r.st) ELSE ExternApply(name, r.vs, r.st)
    ELSE IF fi = 0 THEN
         IF name \in Builtins THEN
              LET r == IF HasDev(C, "NATIVE_ARGS_RTL") THEN EvalListRTL(C, args, Len(args), <<>>, st)   \* builtins are C calls too
@@ -359,7 +370,7 @@ Exec(C, s, st0) ==
             IF Bad(c.st) THEN RS("n", VVoid, c.st)
             ELSE IF c.v.t # "bool" THEN RS("n", VVoid, Fault(c.st, "stuck:type"))
             ELSE IF IsTrue(c.v) THEN ExecScoped(C, s.b, c.st) ELSE ExecScoped(C, s.c, c.st)
-     [] s.k = "block" -> ExecScoped(C, s.b, st)
+     [] s.k \in {"block", "unsafe"} -> ExecScoped(C, s.b, st)
      [] s.k = "while" -> ExecWhile(C, s, st)
      [] s.k = "for" ->       \* for i in (range lo hi): bounds evaluated once, left to right
             LET lo == Eval(C, s.a[1], st) IN
@@ -453,9 +464,23 @@ RunMain(prog, dev, mode, fuel) ==
     steps |-> fuel - r.st.fuel]
 
 \* the shadow tests (section 7): each block runs in order in the evaluator; a false assertion is counted
+\* run_shadow_tests skips a block when the tested function's body or the block itself calls an external function
+\* directly (outside an unsafe block, where the call is carried out through the FFI)
+RECURSIVE ExtInExpr(_, _), ExtInStmts(_, _, _)
+ExtInExpr(C, e) == (e.k = "call" /\ ExternIdx(C, e.s) # 0) \/ \E j \in 1..Len(e.a) : ExtInExpr(C, e.a[j])
+ExtInStmts(C, ss, k) ==
+   IF k > Len(ss) THEN FALSE
+   ELSE LET s == ss[k] IN
+        \/ (s.k \in {"let", "set", "ret", "expr", "if", "while"} /\ \E j \in 1..Len(s.a) : ExtInExpr(C, s.a[j]))
+        \/ (s.k \in {"if", "while", "block"} /\ (ExtInStmts(C, s.b, 1) \/ ExtInStmts(C, s.c, 1)))
+        \/ ExtInStmts(C, ss, k + 1)
+ShadowSkipped(C, sh) == LET fi == FuncIdx(C, sh.fn) IN
+                        (fi # 0 /\ ExtInStmts(C, C.p.funcs[fi].body, 1)) \/ ExtInStmts(C, sh.b, 1)
 RECURSIVE RunShadowsFrom(_, _, _, _)
 RunShadowsFrom(C, k, st, acc) ==
    IF k > Len(C.p.shadows) THEN acc
+   ELSE IF ShadowSkipped(C, C.p.shadows[k]) THEN
+        RunShadowsFrom(C, k + 1, st, Append(acc, [fn |-> C.p.shadows[k].fn, fails |-> 0, status |-> "skipped", out |-> <<>>]))
    ELSE LET sh == C.p.shadows[k]
             fresh == [st EXCEPT !.env = <<>>, !.out = <<>>, !.fails = 0, !.status = "ok", !.depth = 0]
             r == ExecSeq(C, sh.b, 1, fresh) IN
